@@ -74,12 +74,13 @@ def documented(hd0, t, ph, lt, kw):
     return dict(TSTART=tstart, TSTOP=tstop, ONTIME=ontime, LIVETIME=livetime, DEADC=livetime / ontime), m
 
 
-def gen_kw(g, t, gtis):
+def gen_kw(g, t, gtis, tstart=None, tstop=None):
     kw = {'ltimealg': str(g.choice(['LTSUM', 'LTSCALE']))}
     mode = g.uniform()
     if mode < 0.6:
         r = g.uniform()
-        if r < 0.12 and len(gtis) > 1:     # a window entirely inside the gap between two GTIs: selects no event
+        gap_ok = len(gtis) > 1 and (tstart is None or (gtis[0][1] + 1. >= tstart and gtis[1][0] - 1. <= tstop))   # the file may have been narrowed by an earlier selection: a window outside [TSTART, TSTOP] is (rightly) refused
+        if r < 0.12 and gap_ok:     # a window entirely inside the gap between two GTIs: selects no event
             a, b = sorted(g.uniform(gtis[0][1] + 1., gtis[1][0] - 1., 2))
         else:
             a, b = sorted(g.uniform(t.min(), t.max(), 2))
@@ -118,7 +119,7 @@ def close(a, b, tol=1e-9):
 
 def one_step(chk, g, drv, jobs, path, gtis, step=0):
     hd0, t, ph, lt = headers(path)
-    kw = gen_kw(g, t, gtis)
+    kw = gen_kw(g, t, gtis, hd0['PRIMARY']['TSTART'], hd0['PRIMARY']['TSTOP'])
     desc = dict(op='select --ltimeupdate', kwargs=kw, step=step, n_gti=len(gtis))
     try:
         o = run_select(path, kw, 's%d_%d' % (step, len(jobs)))
